@@ -1,3 +1,6 @@
 -- Root of the `IrisVerif` library: models, lemmas, property theorems and drivers.
 import IrisVerif.Props.C09
 import IrisVerif.Driver.C09
+import IrisVerif.Props.C11
+import IrisVerif.Driver.C11
+import IrisVerif.Model.QMat
